@@ -260,8 +260,9 @@ Definition resave_bytes (b : list Z) : list Z :=
   end.
 
 (* ------------------------------------------------------------------ stage 2: the modelled payload classes (Psd/Leaf.v)
-   F-C02-6: a SectionDividerSetting payload of 8..11 bytes is read as (kind, no blend mode, sub_type);
-   the writer emits the sub type only after a blend mode, so it is lost on re-save *)
+   F-C02-6 (FIXED by /repo de58475): a SectionDividerSetting payload of 8..11 bytes was read as (kind, no blend mode,
+   sub_type); the writer emits the sub type only after a blend mode, so it was lost on re-save.  [leaf_guard]
+   describes that class; the current reader never produces it (ResaveProofs.read_leaf_wf) *)
 From PsdV Require Import Psd.Leaf.
 Definition leaf_guard (l : leaf) : bool :=
   match l with
